@@ -125,6 +125,15 @@ MUTANTS = [
     M('sema:if:else-is-then', 'sema', ['C06'], 'stmt_to_asg_stmt', 'Some(asg::If::new(condition.unwrap(), then_branch, else_branch).to_stmt())', 'Some(asg::If::new(condition.unwrap(), then_branch.clone(), else_branch.map(|_b| then_branch)).to_stmt())'),
     M('sema:switch:case-body-dropped', 'sema', ['C06'], 'stmt_to_asg_stmt', 'asg::CaseExpr::new(int_exprs, statements)', 'asg::CaseExpr::new(int_exprs, Vec::new())'),
     M('sema:literal:int-as-bool', 'sema', ['C06', 'C08'], 'literal_to_asg_texpr', 'asg::IntLiteral::new(num, true).to_texpr() // `true` means positive literal.', 'asg::BoolLiteral::new(num > 0).to_texpr()'),
+    M('sema:literal:positive-imaginary-int-as-int', 'sema', ['C06'], 'expr_to_asg_texpr', 'Some(asg::IntLiteral::new(num, true).to_imaginary_texpr())', 'Some(asg::IntLiteral::new(num, true).to_texpr())'),
+    M('sema:literal:negated-int-keeps-plus-sign', 'sema', ['C06'], 'negative_int_to_asg_type', 'asg::IntLiteral::new(num, false)', 'asg::IntLiteral::new(num, true)'),
+    M('sema:expr:negated-paren-loses-minus', 'sema', ['C06'], 'expr_to_asg_texpr', '''                Some(synexpr) => Some(
+                    asg::UnaryExpr::new(
+                        asg::UnaryOp::Minus,
+                        expr_to_asg_texpr(Some(synexpr), context).unwrap(),
+                    )
+                    .to_texpr(),
+                ),''', '''                Some(synexpr) => Some(expr_to_asg_texpr(Some(synexpr), context).unwrap()),'''),
     # ---- PARSER marker discipline
     M('parser:marker:complete-wrong-slot', 'parser', ['C01', 'C02'], 'Marker::complete', 'let idx = self.pos as usize;', 'let idx = (self.pos as usize) + 1;'),
     M('parser:marker:abandon-always-pops', 'parser', ['C01', 'C02'], 'Marker::abandon', 'if idx == p.events.len() - 1 {', 'if idx <= p.events.len() - 1 {'),
